@@ -34,18 +34,27 @@ def main():
             del iscsi.LOG[:]
             del sgio.LOG[:]
             r = {}
-            try:
-                idev.execute(Cmd(c["out"], c["inn"]))
-                e = iscsi.LOG[-1]
-                r["iscsi"] = dict(dir=e["dir"], xferlen=e["xferlen"], out_len=e["out_len"], in_len=e["in_len"])
-            except Exception as ex:  # noqa
-                r["iscsi"] = dict(exn=type(ex).__name__)
-            try:
-                sdev.execute(Cmd(c["out"], c["inn"]))
-                e = sgio.LOG[-1]
-                r["sgio"] = dict(out_len=e["out_len"], in_len=e["in_len"])
-            except Exception as ex:  # noqa
-                r["sgio"] = dict(exn=type(ex).__name__)
+            # the same command object is issued twice; the first time the device transfers fewer bytes than were allocated
+            ic, sc = Cmd(c["out"], c["inn"]), Cmd(c["out"], c["inn"])
+            for tag in ("", "_again"):
+                short = bytes([0x5A]) * (c["inn"] // 3)
+                try:
+                    if hasattr(iscsi, "SCRIPT"):
+                        del iscsi.SCRIPT[:]
+                        iscsi.SCRIPT.append((0, None, short))
+                    idev.execute(ic)
+                    e = iscsi.LOG[-1]
+                    r["iscsi" + tag] = dict(dir=e["dir"], xferlen=e["xferlen"], out_len=e["out_len"], in_len=e["in_len"])
+                except Exception as ex:  # noqa
+                    r["iscsi" + tag] = dict(exn=type(ex).__name__)
+                try:
+                    del sgio.SCRIPT[:]
+                    sgio.SCRIPT.append(("fill", short))
+                    sdev.execute(sc)
+                    e = sgio.LOG[-1]
+                    r["sgio" + tag] = dict(out_len=e["out_len"], in_len=e["in_len"])
+                except Exception as ex:  # noqa
+                    r["sgio" + tag] = dict(exn=type(ex).__name__)
             out.append(r)
         sdev.close()
     finally:
